@@ -276,6 +276,28 @@ func (w *world) build() error {
 	return nil
 }
 
+// failedBinds makes a few bind attempts that must be refused (address already in use) on hosts whose sockets carry
+// traffic afterwards: a refused bind must not disturb the socket that owns the address.
+func (w *world) failedBinds(rng *rand.Rand, r *res.Result) {
+	for _, s := range w.socks {
+		if rng.Intn(3) != 0 {
+			continue
+		}
+		ip := s.ip
+		if rng.Intn(3) == 0 {
+			ip = "0.0.0.0"
+		}
+		c, err := s.host.net.ListenUDP("udp", vn.UDP(ip, s.port))
+		if err == nil {
+			// the duplicate bind was accepted: that is C13's business; undo it without touching the table further
+			r.Count("duplicate_bind_unexpectedly_accepted", 1)
+			_ = c
+			continue
+		}
+		r.Count("refused_duplicate_binds", 1)
+	}
+}
+
 func (w *world) openSockets() error {
 	for i, ss := range w.c.Socks {
 		hm := w.hosts[ss.Host]
@@ -913,6 +935,7 @@ func runCase(c *tcase, r *res.Result) (*viol, string) {
 	if err := w.openSockets(); err != nil {
 		return nil, "inconclusive: sockets: " + err.Error()
 	}
+	w.failedBinds(rand.New(rand.NewSource(c.Seed+5)), r)
 	var idc uint64
 	resolve := func(s *sockM, d string, rng *rand.Rand) *net.UDPAddr {
 		switch {
